@@ -129,21 +129,78 @@ package banderwagon
 //@ loop 1 invariant len(zs) == len(elements) && (forall k int :: 0 <= k && k < len(elements) ==> zs[k] == elements[k].inner.Z)
 //@ loop 1 invariant forall k int :: 0 <= k && k < len(elements) ==> zInvs[k] == fp_inv(zs[k])
 
-// ---- precomputed-table scalar multiplication: table-access safety and frame (the functional recoding contract
-// was attempted and not discharged, see /verif/notes and DESIGN.md C05)
-
+// ---- precomputed-table scalar multiplication (C05): signed-window recoding against the table invariant.
+// S (ghost) is the sum of the signed digits consumed so far times their weights; the invariant is
+//   S + carry * 2^(64*l + ws*w) == (scalar mod 2^(64*l)) + (scalar[l] mod 2^(ws*w)) * 2^(64*l)   and   *res == res0 + S * base.
+// Both loops are unrolled with the invariants as cut points (32 resp. 16 independent iterations with literal weights);
+// the window size is fixed per case of the split. Stepping-stone assertions name the table entry used on each path.
 //@ func PrecompPoint.ScalarMul
-//@ props C13
+//@ props C05 C13
+//@ option seeds
 //@ view limbs
-//@ prelude frint field
+//@ prelude frint field group grouplaws
 //@ requires (pp.windowSize == 8 || pp.windowSize == 16) && (pp.windowSize == 8 ==> len(pp.windows) == 32) && (pp.windowSize == 16 ==> len(pp.windows) == 16)
-//@ requires I(scalar) < R_MOD
-//@ fact tlen(kk int): 0 <= kk && kk < len(pp.windows) ==> len(pp.windows[kk]) == pow2(pp.windowSize - 1) && obj(pp.windows[kk]) != obj(res)
+//@ requires validE(*res) && I(scalar) < R_MOD && obj(res) != obj(pp) && obj(res) != obj(pp.windows)
+//@ fact tlen(kk int): 0 <= kk && kk < len(pp.windows) ==> len(pp.windows[kk]) == (pp.windowSize == 8 ? 128 : 32768) && obj(pp.windows[kk]) != obj(res)
+//@ fact tab(kk int, jj int): 0 <= kk && kk < len(pp.windows) && 0 <= jj && jj < (pp.windowSize == 8 ? 128 : 32768) ==> validN(pp.windows[kk][jj]) && gelN(pp.windows[kk][jj]) == (pp.windowSize == 8 ? g_smul((jj + 1) * pow2(8 * kk), ppbase(obj(pp), off(pp))) : g_smul((jj + 1) * pow2(16 * kk), ppbase(obj(pp), off(pp))))
 //@ split pp.windowSize == 8 | pp.windowSize == 16
-//@ at loopbody 1: inst tlen(l*numWindowsInLimb + w)
+//@ ghost var S Int 0
+//@ at call FromMont 0: ghost s0 := scalar[0]
+//@ at call FromMont 0: ghost s1 := scalar[1]
+//@ at call FromMont 0: ghost s2 := scalar[2]
+//@ at call FromMont 0: ghost s3 := scalar[3]
+//@ at loopbody 1: ghost K := l*numWindowsInLimb + w
+//@ at loopbody 1: ghost wvs := (pp.windowSize == 8 ? (scalar[l] / pow2(8*w)) % 256 : (scalar[l] / pow2(16*w)) % 65536) + carry
+//@ at loopbody 1: inst tlen(K)
+//@ at loopbody 1: inst tab(K, wvs - 1)
+//@ at loopbody 1: inst tab(K, (pp.windowSize == 8 ? 256 : 65536) - wvs - 1)
+//@ at call ExtendedAddNormalized 0: set S := (pp.windowSize == 8 ? S + windowValue * pow2(64*l + 8*w) : S + windowValue * pow2(64*l + 16*w))
+//@ at call ExtendedAddNormalized 1: set S := (pp.windowSize == 8 ? S - windowValue * pow2(64*l + 8*w) : S - windowValue * pow2(64*l + 16*w))
+//@ at call ExtendedAddNormalized 0: assert@wvpos wvs == windowValue
+//@ at call ExtendedAddNormalized 1: assert@wvneg (pp.windowSize == 8 ? 256 : 65536) - wvs == windowValue
+//@ at call ExtendedAddNormalized 0: assert@rowpos row(pp.windows[K]) == old(row(pp.windows[K]))
+//@ at call ExtendedAddNormalized 1: assert@rowneg row(pp.windows[K]) == old(row(pp.windows[K]))
+//@ at call ExtendedAddNormalized 0: assert@tvpos gelN(pp.windows[K][windowValue - 1]) == (pp.windowSize == 8 ? g_smul(windowValue * pow2(8*K), ppbase(obj(pp), off(pp))) : g_smul(windowValue * pow2(16*K), ppbase(obj(pp), off(pp))))
+//@ at call ExtendedAddNormalized 1: assert@tvneg gelN(pp.windows[K][windowValue - 1]) == (pp.windowSize == 8 ? g_smul(windowValue * pow2(8*K), ppbase(obj(pp), off(pp))) : g_smul(windowValue * pow2(16*K), ppbase(obj(pp), off(pp))))
+//@ at call ExtendedAddNormalized 0: assert@pos gelE(*res) == g_add(old(gelE(*res)), g_smul(S, ppbase(obj(pp), off(pp))))
+//@ at call ExtendedAddNormalized 1: assert@neg gelE(*res) == g_add(old(gelE(*res)), g_smul(S, ppbase(obj(pp), off(pp))))
+//@ ensures validE(*res) && gelE(*res) == g_add(old(gelE(*res)), g_smul(fval(I(scalar)), ppbase(obj(pp), off(pp))))
 //@ modifies *res
-//@ loop 0 invariant 0 <= l && l <= 4 && (carry == 0 || carry == 1) && numWindowsInLimb * pp.windowSize == 64
-//@ loop 1 invariant 0 <= l && l < 4 && 0 <= w && w <= numWindowsInLimb && (carry == 0 || carry == 1) && numWindowsInLimb * pp.windowSize == 64
+//@ loop 0 unroll 4
+//@ loop 1 unroll 8
+//@ loop 1 invariant 0 <= l && l < 4 && (carry == 0 || carry == 1) && (l == 3 && w == numWindowsInLimb ==> carry == 0)
+//@ loop 1 invariant validE(*res)
+//@ loop 1 invariant numWindowsInLimb * pp.windowSize == 64
+//@ loop 1 invariant scalar[0] == s0 && scalar[1] == s1 && scalar[2] == s2 && scalar[3] == s3
+//@ loop 1 invariant I(s0, s1, s2, s3) == fval(I(old(scalar))) && I(s0, s1, s2, s3) < R_MOD
+//@ loop 1 invariant (pp.windowSize == 8 ? S + carry * pow2(64*l + 8*w) : S + carry * pow2(64*l + 16*w)) == (l > 0 ? s0 : 0) + (l > 1 ? s1*W : 0) + (l > 2 ? s2*W2 : 0) + (pp.windowSize == 8 ? (scalar[l] % pow2(8*w)) * pow2(64*l) : (scalar[l] % pow2(16*w)) * pow2(64*l))
+//@ loop 1 invariant gelE(*res) == g_add(old(gelE(*res)), g_smul(S, ppbase(obj(pp), off(pp))))
+//@ loop 0 invariant 0 <= l && l <= 4 && (carry == 0 || carry == 1) && (l == 4 ==> carry == 0)
+//@ loop 0 invariant validE(*res)
+//@ loop 0 invariant numWindowsInLimb * pp.windowSize == 64
+//@ loop 0 invariant scalar[0] == s0 && scalar[1] == s1 && scalar[2] == s2 && scalar[3] == s3
+//@ loop 0 invariant I(s0, s1, s2, s3) == fval(I(old(scalar))) && I(s0, s1, s2, s3) < R_MOD
+//@ loop 0 invariant S + carry * pow2(64*l) == (l > 0 ? s0 : 0) + (l > 1 ? s1*W : 0) + (l > 2 ? s2*W2 : 0) + (l > 3 ? s3*W3 : 0)
+//@ loop 0 invariant gelE(*res) == g_add(old(gelE(*res)), g_smul(S, ppbase(obj(pp), off(pp))))
+
+// ---- 256-point MSM on the precomputed tables (C05). The table invariant (shape and content of every PrecompPoint, facts
+// shape / mtlen / mtab) is a precondition: it is what NewPrecompMSM establishes, which is not under contract (errgroup
+// goroutines) and is exercised by the bounded stand-in C05__commit.
+//@ func MSMPrecomp.MSM
+//@ props C05
+//@ view limbs
+//@ prelude frint field group grouplaws msmspec
+//@ requires len(scalars) <= 256
+//@ requires forall k int :: 0 <= k && k < len(scalars) ==> I(scalars[k]) < R_MOD
+//@ fact shape(i int): 0 <= i && i < 256 ==> (msm.precompPoints[i].windowSize == 8 || msm.precompPoints[i].windowSize == 16) && (msm.precompPoints[i].windowSize == 8 ==> len(msm.precompPoints[i].windows) == 32) && (msm.precompPoints[i].windowSize == 16 ==> len(msm.precompPoints[i].windows) == 16) && obj(msm.precompPoints[i].windows) >= 1 && allocated(msm.precompPoints[i].windows)
+//@ fact mtlen(i int, kk int): 0 <= i && i < 256 && 0 <= kk && kk < len(msm.precompPoints[i].windows) ==> len(msm.precompPoints[i].windows[kk]) == (msm.precompPoints[i].windowSize == 8 ? 128 : 32768) && allocated(msm.precompPoints[i].windows[kk])
+//@ fact mtab(i int, kk int, jj int): 0 <= i && i < 256 && 0 <= kk && kk < len(msm.precompPoints[i].windows) && 0 <= jj && jj < (msm.precompPoints[i].windowSize == 8 ? 128 : 32768) ==> validN(msm.precompPoints[i].windows[kk][jj]) && gelN(msm.precompPoints[i].windows[kk][jj]) == (msm.precompPoints[i].windowSize == 8 ? g_smul((jj + 1) * pow2(8 * kk), ppbase(obj(msm), off(msm) + 5*i)) : g_smul((jj + 1) * pow2(16 * kk), ppbase(obj(msm), off(msm) + 5*i)))
+//@ ensures validP(result.inner) && gelP(result.inner) == msum(obj(msm), off(msm), scalars, len(scalars))
+//@ at call IsZero 0: inst shape(i)
+//@ at call ScalarMul 0: pass tlen(kk) := mtlen(i, kk)
+//@ at call ScalarMul 0: pass tab(kk, jj) := mtab(i, kk, jj)
+//@ loop 0 invariant 0 - 1 <= rangeindex && rangeindex < len(scalars) && validE(result)
+//@ loop 0 invariant gelE(result) == msum(obj(msm), off(msm), scalars, rangeindex + 1)
 
 // ---- group operations (C08): wrappers over gnark's projective formulas; gelP is the class of (X:Y:Z)
 
